@@ -238,22 +238,24 @@ Section Quadratic.
       intros H. injection H as <-. reflexivity.
   Qed.
 
-  Theorem scalar_optimal small sc tc :
-    0 < small -> (A * C - B * B <= 0 \/ small <= A * C - B * B) ->
+  Theorem scalar_optimal small k sc tc :
+    0 < small -> 0 < k -> (A * C - B * B <= 0 \/ small <= A * C - B * B) ->
     let '(sN, sD, tN, tD) :=
         stage3 R RO A B D (stage2 R RO A D (stage1 R RO small A B C D E)) in
-    (sN <= 0 \/ small <= sN) -> (tN <= 0 \/ small <= tN) ->
-    ratio R RO small sN sD = Ok sc -> ratio R RO small tN tD = Ok tc ->
+    (sN <= 0 \/ k * sD <= sN) -> (tN <= 0 \/ k * tD <= tN) ->
+    ratio R RO (k * sD) sN sD = Ok sc -> ratio R RO (k * tD) tN tD = Ok tc ->
     forall s t, 0 <= s <= 1 -> 0 <= t <= 1 -> F sc tc <= F s t.
   Proof.
-    intros Hs Hoff. pose proof (stage1_strip small Hs Hoff) as S1.
+    intros Hs Hk Hoff. pose proof (stage1_strip small Hs Hoff) as S1.
     destruct (stage1 R RO small A B C D E) as [[[sN1 sD1] tN1] tD1].
     destruct S1 as (Hsn & HsD & HtD & Hstrip).
     pose proof (div_unit sN1 sD1 Hsn HsD) as Hs'.
+    assert (HktD : 0 < k * tD1) by (apply Rmult_lt_0_compat; lra).
     destruct (Rlt_or_le tN1 0) as [Hlow|Hnl].
     - (* t0 visible *)
       destruct (stage2_spec sN1 sD1 tN1 tD1 HsD Hlow) as (sN' & sD' & E2 & Hn' & HD' & H1d).
       rewrite E2. rewrite stage3_id by lra.
+      assert (HksD : 0 < k * sD') by (apply Rmult_lt_0_compat; lra).
       intros OffS OffT Rs Rt.
       apply ratio_val in Rs; try lra. apply ratio_val in Rt; try lra. subst sc tc.
       replace (0 / tD1) with 0 by (field; lra).
@@ -262,13 +264,17 @@ Section Quadratic.
     - rewrite stage2_id by exact Hnl.
       destruct (Rlt_or_le tD1 tN1) as [Hhigh|Hnh].
       + destruct (stage3_spec sN1 sD1 tN1 tD1 HsD Hhigh) as (sN' & sD' & E3 & Hn' & HD' & H1d).
-        rewrite E3. intros OffS OffT Rs Rt.
+        rewrite E3.
+        assert (HksD : 0 < k * sD') by (apply Rmult_lt_0_compat; lra).
+        intros OffS OffT Rs Rt.
         apply ratio_val in Rs; try lra. apply ratio_val in Rt; try lra. subst sc tc.
         replace (tD1 / tD1) with 1 by (field; lra).
         apply (box_high (sN1 / sD1) (tN1 / tD1)); auto.
         apply Rmult_lt_reg_r with tD1; [lra|]. unfold Rdiv.
         rewrite Rmult_assoc, Rinv_l by lra. lra.
-      + rewrite stage3_id by exact Hnh. intros OffS OffT Rs Rt.
+      + rewrite stage3_id by exact Hnh.
+        assert (HksD : 0 < k * sD1) by (apply Rmult_lt_0_compat; lra).
+        intros OffS OffT Rs Rt.
         apply ratio_val in Rs; try lra. apply ratio_val in Rt; try lra. subst sc tc.
         intros s t Hs01 Ht01. apply Hstrip. exact Hs01.
   Qed.
@@ -328,31 +334,34 @@ Proof.
   - right. apply negb_true_iff in H. apply Rltb_false. exact H.
 Qed.
 
-Theorem seg_seg_optimal (small : R) (a b c d : V) dist2 cp1 cp2 sc tc :
-  0 < small -> 0 < dotR (vsubR b a) (vsubR b a) -> 0 < dotR (vsubR d c) (vsubR d c) ->
-  off_band R RO small a b c d = true ->
-  seg_seg R RO small a b c d = Ok (dist2, cp1, cp2, sc, tc) ->
+Theorem seg_seg_optimal (a b c d : V) dist2 cp1 cp2 sc tc :
+  0 < dotR (vsubR b a) (vsubR b a) -> 0 < dotR (vsubR d c) (vsubR d c) ->
+  off_band R RO a b c d = true ->
+  seg_seg R RO a b c d = Ok (dist2, cp1, cp2, sc, tc) ->
   forall s t, 0 <= s <= 1 -> 0 <= t <= 1 ->
     dist2 <= normsqR (vsubR (vaddR a (vscaleR s (vsubR b a))) (vaddR c (vscaleR t (vsubR d c)))).
 Proof.
-  intros Hs H11 H22. unfold off_band, seg_seg. cbv zeta.
+  intros H11 H22. unfold off_band, seg_seg. cbv zeta.
   set (d1 := vsubR b a) in *. set (d2 := vsubR d c) in *. set (ds := vsubR a c).
   assert (HDelta : 0 <= dotR d1 d1 * dotR d2 d2 - dotR d1 d2 * dotR d1 d2).
   { rewrite <- lagrange. apply dot_self_nonneg. }
   pose proof (parallel_dot d1 d2 ds) as Hpar.
+  assert (Hs : 0 < / 100000000 * dotR d1 d1 * dotR d2 d2).
+  { apply Rmult_lt_0_compat; [apply Rmult_lt_0_compat; lra | lra]. }
+  assert (Hk : 0 < / 100000000) by lra.
   pose proof (scalar_optimal (dotR d1 d1) (dotR d1 d2) (dotR d2 d2) (dotR d1 ds) (dotR d2 ds)
-                H11 H22 HDelta Hpar small) as SO.
-  cbn [n_leb n_ltb n_zero n_sub n_mul RO].
+                H11 H22 HDelta Hpar (/ 100000000 * dotR d1 d1 * dotR d2 d2) (/ 100000000)) as SO.
+  cbn [n_leb n_ltb n_zero n_sub n_mul n_atol RO].
   destruct (stage3 R RO _ _ _ _) as [[[sN sD] tN] tD].
   intros Hoff. apply andb_true_iff in Hoff as [Hoff Ht]. apply andb_true_iff in Hoff as [Hd Hsn].
   apply orb_off in Hd, Hsn, Ht.
-  destruct (ratio R RO small sN sD) as [sc'|] eqn:Rs; [|discriminate].
-  destruct (ratio R RO small tN tD) as [tc'|] eqn:Rt; [|discriminate].
+  destruct (ratio R RO (/ 100000000 * sD) sN sD) as [sc'|] eqn:Rs; [|discriminate].
+  destruct (ratio R RO (/ 100000000 * tD) tN tD) as [tc'|] eqn:Rt; [|discriminate].
   intros H.
   assert (E : dist2 = normsqR (vsubR (vaddR ds (vscaleR sc' d1)) (vscaleR tc' d2)))
     by (injection H; intros; subst; reflexivity).
   clear H. intros s t Hs01 Ht01.
-  specialize (SO sc' tc' Hs Hd Hsn Ht eq_refl eq_refl s t Hs01 Ht01).
+  specialize (SO sc' tc' Hs Hk Hd Hsn Ht eq_refl eq_refl s t Hs01 Ht01).
   subst d1 d2 ds. rewrite E.
   rewrite (dist_form a b c d sc' tc'). rewrite !F_norm. lra.
 Qed.
